@@ -483,11 +483,11 @@ func (C *Contracts) parseFile(path, pkgPath string) error {
 				break
 			}
 			for _, m := range splitTop(rest, ',') {
-				c, err := mk(m, l.line)
-				if err != nil {
-					return err
+				m = strings.TrimSpace(m)
+				if _, err := parseSpecExpr(strings.TrimSuffix(m, "[]")); err != nil {
+					return fmt.Errorf("%s:%d: %v", path, l.line, err)
 				}
-				curF.Modifies = append(curF.Modifies, c)
+				curF.Modifies = append(curF.Modifies, &Clause{Text: m, Line: l.line, File: path})
 			}
 		case "nooverflow":
 			curF.NoOverflow = true
